@@ -457,10 +457,13 @@ func (w *c14World) expectedRoles() roleCount {
 // (expected role counts given by want), bracketed by two ledger readings with
 // identical Get/Put totals, i.e. no pool operation happened around the
 // snapshot (BFD sessions keep transmitting on their own schedule, so idleness
-// is only ever momentary). Returns false if the watchdog fires first.
-func (w *c14World) stableCut(want roleCount, needParked bool, watchdog time.Duration) (ledgerSummary, int, idleSnap, bool) {
+// is only ever momentary). A cut in which some receivers (or BFD senders) are
+// instead blocked inside PacketPool.Get on an empty pool while everything else
+// is idle is also returned (starved=true): nobody can ever return a packet.
+// Returns ok=false if the watchdog fires first.
+func (w *c14World) stableCut(want roleCount, needParked bool, watchdog time.Duration) (sum ledgerSummary, fill int, snap idleSnap, starved, ok bool) {
 	deadline := time.Now().Add(watchdog)
-	var snap idleSnap
+	lastSnap := time.Time{}
 	for {
 		allParked := true
 		if needParked {
@@ -470,25 +473,36 @@ func (w *c14World) stableCut(want roleCount, needParked bool, watchdog time.Dura
 				}
 			}
 		}
-		if allParked {
-			if w.tParked.IsZero() {
-				w.tParked = time.Now()
-			}
+		// while input is still being fed, look only now and then (a goroutine
+		// snapshot stops the world)
+		if w.led.recs.Load() == nil {
+			// the data plane has not initialized its pool yet
+			allParked = false
+		} else if allParked || time.Since(lastSnap) > 40*time.Millisecond {
+			lastSnap = time.Now()
 			s1 := w.led.summarize()
 			snap = snapshotGoroutines()
-			if snap.Idle == want && snap.Busy == (roleCount{}) {
-				_, fill := router.VerifPoolCap(w.star.C)
-				s2 := w.led.summarize()
-				if s1.Gets == s2.Gets && s1.Puts == s2.Puts && len(s1.Held) == len(s2.Held) {
-					return s2, fill, snap, true
+			_, fill = router.VerifPoolCap(w.star.C)
+			if snap.Busy == (roleCount{}) {
+				got := snap.Idle
+				got.Receivers += snap.Starved.Receivers
+				got.BFD += snap.Starved.BFD
+				if got == want {
+					s2 := w.led.summarize()
+					if s1.Gets == s2.Gets && s1.Puts == s2.Puts && len(s1.Held) == len(s2.Held) {
+						st := snap.Starved.Receivers+snap.Starved.BFD > 0
+						if !st && allParked {
+							return s2, fill, snap, false, true
+						}
+						if st && fill == 0 {
+							return s2, fill, snap, true, true
+						}
+					}
 				}
 			}
 		}
 		if time.Now().After(deadline) {
-			if !allParked {
-				snap = snapshotGoroutines()
-			}
-			return ledgerSummary{}, 0, snap, false
+			return ledgerSummary{}, 0, snap, false, false
 		}
 		time.Sleep(2 * time.Millisecond)
 	}
@@ -548,8 +562,36 @@ func c14Child(cfg childCfg) {
 	}
 
 	// ---- phase A: feed everything, wait for the data plane to fall idle ----
-	sum, fill, snap, idle := w.stableCut(w.expectedRoles(), true, 60*time.Second)
+	sum, fill, snap, starved, idle := w.stableCut(w.expectedRoles(), true, 60*time.Second)
 	rep := &phaseReport{Phase: "quiescent", ExpectParked: d.Batch * len(w.conns)}
+	if idle && starved {
+		// Deadlock by pool exhaustion: every stage is idle, the pool is empty
+		// and receivers wait for a buffer that nobody holds.
+		rep.Ledger = &sum
+		rep.PoolCap, _ = router.VerifPoolCap(w.star.C)
+		rep.Snap = &snap
+		held := len(sum.Held)
+		mayHold := len(w.conns) * d.Batch // receivers, parked or in the middle of a refill
+		var last []string
+		for _, idx := range sum.Held {
+			if len(last) < 12 {
+				last = append(last, sum.HeldSeqs[idx])
+			}
+		}
+		if held-mayHold > 0 {
+			w.led.violate("C14:leak", fmt.Sprintf("pool exhausted while every stage is idle: %d packets are held, the %d receivers can account for at most %d; the others were taken from the pool and never returned", held, len(w.conns), mayHold),
+				map[string]any{"held": held, "capacity": rep.PoolCap, "receivers_blocked_in_pool_get": snap.Starved.Receivers, "last_seen_of_some_held_packets": last, "desc": w.desc})
+		} else {
+			rep.Inconclusive = "starved-but-accountable"
+		}
+		v, vc := w.led.violations()
+		rep.Violations, rep.ViolCounts = v, vc
+		rep.Conns = w.connReports()
+		rep.Drops = w.drops()
+		rep.WallMs = time.Since(t0).Milliseconds()
+		emit(rep)
+		os.Exit(0)
+	}
 	if !idle {
 		rep.Inconclusive = "quiesce-watchdog"
 		rep.Snap = &snap
@@ -581,7 +623,7 @@ func c14Child(cfg childCfg) {
 	// (stop() waits for them); the BFD goroutines leave once they see their
 	// closed channels; the processors stay blocked on their queues forever.
 	after := roleCount{Processors: d.Processors, SlowPath: d.SlowPath}
-	sum2, fill2, snap2, ok2 := w.stableCut(after, false, 30*time.Second)
+	sum2, fill2, snap2, _, ok2 := w.stableCut(after, false, 30*time.Second)
 	if !ok2 {
 		rep2.Inconclusive = "post-shutdown-watchdog"
 		rep2.Snap = &snap2
